@@ -23,6 +23,8 @@ def run(tier):
                          regionlens=(0, 1, 3, 4), kinds=("typed", "bytes"), simulate=40 if tier == "quick" else 700,
                          depth=300, tlcseed=seed()), None),
     ]
+    plans.append(("sim-sets", dict(agents=(0,), maxch=4, maxreg=0, maxslots=1, maxsets=2, maxops=40, minops=18, maxqueue=6,
+                                   kinds=("typed",), simulate=30 if tier == "quick" else 500, depth=250, tlcseed=seed() + 5), None))
     for name, g, limit in plans:
         t0 = time.time()
         r = chancheck.gen(wd, name, **g)
@@ -93,8 +95,8 @@ def run(tier):
                    "on the os, memfd and in-process builds and compared step by step with the model (error codes and select "
                    "batching are not part of the comparison)"}
     return {"level": "translation_validation", "coverage": cov, "violations": violations,
-            "assumptions": ["receiver sets are compared per build by C06 (unix) only; the in-process select is exercised at "
-                            "API level through the router/async checks", "macOS/Windows back-ends do not build here"]}
+            "assumptions": ["receiver sets in the differential programs carry messages without embedded endpoints; the "
+                            "number of events per select call is not compared", "macOS/Windows back-ends do not build here"]}
 
 
 def replay(rp):
